@@ -48,7 +48,18 @@ def main():
             row = res.setdefault(name, {})
             row["applies_to_head"] = True
             row.setdefault("checks", {})
-            for p in ([name[:3]] if target else props):
+            tprops = props
+            if target:
+                # the property the change was written against, plus the checks recorded as catching it when it was
+                # taken in (a change is often caught by a neighbouring property's check)
+                tprops = [name[:3]]
+                try:
+                    meta = json.load(open(os.path.join(d, "meta.json")))
+                    tprops += [k for k, v in (meta.get("checks_quick_tier") or {}).items()
+                               if v.get("exit") == 1 and k not in tprops]
+                except Exception:
+                    pass
+            for p in tprops:
                 t0 = time.time()
                 exits, viol = {}, []
                 for sd in seeds:
